@@ -118,6 +118,29 @@ Theorem c12_idtoken_under_jwks : forall iss ui kc keys cls now r idt act,
   verify (server_of iss ui keys (kc_signer kc)) act = true.
 Proof. exact released_under_jwks. Qed.
 
+(* The statement's ID-token sentence in one piece, for histories of any length against a daemon started
+   with any key files the model covers: a release goes back to an earlier authorization step of user u for the
+   client that now authenticated; the ID token names this issuer, u, that client alone, echoes the nonce,
+   expires 16 h after that step, and verifies under the JWKS the daemon publishes. *)
+Theorem c12_idtoken_complete : forall iss ui kc keys cls pre now r post idt act,
+  load kc = Some keys ->
+  let i := {| srv := server_of iss ui keys (kc_signer kc); clients := cls |} in
+  valid i [] (pre ++ OToken now r :: post) -> token_endpoint i now r = Release idt act ->
+  exists t_a u a,
+    In (OAuthorize t_a u a) pre /\ authorize i t_a u a = Some (tr_code r) /\
+    fst (presented_creds r) = ar_client a /\ tr_redirect r = ar_redirect a /\ tr_redirect r <> [] /\
+    unix now <= unix t_a + 300 /\
+    dec_id (t_claims idt) = Some {| i_iss := iss; i_sub := u; i_aud := [ar_client a];
+                                    i_exp := unix t_a + 16 * 3600; i_iat := unix now; i_nonce := ar_nonce a |} /\
+    under_jwks (jwks_of keys) idt = true.
+Proof.
+  intros iss ui kc keys cls pre now r post idt act L i V R.
+  destruct (c12_idtoken _ _ _ _ _ _ _ V R) as [t_a [u [a [c [IN [A [F [_ [_ [RED [EXP [D _]]]]]]]]]]]].
+  destruct (c12_idtoken_under_jwks _ _ _ _ _ _ _ _ _ L R) as [J _].
+  exists t_a, u, a. repeat split; auto.
+  intro E. pose proof (c12_redirect_required i now r E) as X. rewrite R in X. discriminate X.
+Qed.
+
 (* The JWKS publishes every loaded key, whatever its type: the signer, the Ed25519 CA, each key of
    the file; nothing else. *)
 Theorem c12_jwks_all_keys : forall kc keys, load kc = Some keys ->
